@@ -444,7 +444,7 @@ class RepoOverlay:
             real = os.path.join(self.dir, name)
             with open(real, "w") as f:
                 f.write(text)
-            self.map[os.path.join(REPO, pkg_rel, name)] = real
+            self.map[os.path.normpath(os.path.join(REPO, pkg_rel, name))] = real
         self.engine_overlay = os.path.join(self.dir, "engine_overlay.json")
         with open(self.engine_overlay, "w") as f:
             json.dump({k: v for k, v in self.map.items() if not k.endswith("_test.go")}, f)
